@@ -88,7 +88,7 @@ def continue_history(rng, size, pol, h, ops_done, budget, alphabet_vals):
 TAG = {"ins": 0, "upd": 1, "rem": 2, "empty": 3, "full": 4}
 
 
-def run_impl(size, pol, ops):
+def run_impl(size, pol, ops, ctype=None):
     from opfython.core import Heap
     import opfython.utils.constants as c
     h = Heap(size, pol)
@@ -97,7 +97,7 @@ def run_impl(size, pol, ops):
         if k == "ins":
             r = h.insert(a); code = 1 if r else 0
         elif k == "upd":
-            r = h.update(a, b); code = -2
+            r = h.update(a, b if ctype is None else ctype(b)); code = -2
         elif k == "rem":
             r = h.remove()
             code = -1 if r is False else 100 + int(r)
@@ -164,13 +164,15 @@ def gen_valid_live_big(rng, size, n_ops):
     return size, pol, ops
 
 
-def gen_valid_live(rng, max_size=8, max_len=40, exhaustive=None):
+def gen_valid_live(rng, max_size=8, max_len=40, exhaustive=None, alphabet_override=None):
     """Generate a valid history by driving the real heap (ties in removal are then followed exactly)."""
     from opfython.core import Heap
     size = rng.randint(1, max_size)
     pol = rng.choice(["min", "max"])
     k = rng.choice([1, 2, 3, 50])
     alphabet = sorted(set(float(rng.randint(0, 9)) for _ in range(k))) if k < 50 else None
+    if alphabet_override is not None:
+        alphabet = alphabet_override
     h = Heap(size, pol)
     ops = []
     for _ in range(rng.randint(1, max_len)):
@@ -316,6 +318,10 @@ def main(tier, seed):
         size, pol, ops = gen_history(rng, valid=False)
         ops = [o for o in ops if o[0] != "stop"]
         cases.append(("invalid", size, pol, ops))
+    # the whole range of binary64 as costs: both infinities, +-FLOAT_MAX, both zeros, the smallest subnormal
+    WIDE = [float("-inf"), -FLOAT_MAX, -1e300, -1.5, -5e-324, -0.0, 0.0, 5e-324, 2.5, 1e300, FLOAT_MAX, float("inf")]
+    for i in range(80 if tier == "quick" else 3000):
+        cases.append(("valid",) + gen_valid_live(rng, max_size=8, max_len=40, alphabet_override=sorted(set(rng.sample(WIDE, rng.randint(2, 6))))))
     exh = 0
     if tier == "thorough":
         for pol in ("min", "max"):
@@ -395,6 +401,33 @@ def main(tier, seed):
                 ops2 = shrink(size, pol, ops)
                 rep.violation("heap history violates the priority-queue contract: " + oracle(size, pol, ops2, run_impl(size, pol, ops2)),
                               dict(size=size, policy=pol, ops=ops2), key="heap:" + pol)
+    # costs handed over as other number types (Python int, numpy scalars of every width and signedness): same answers
+    import numpy as _np
+    CTYPES = [int, _np.float32, _np.float16, _np.int8, _np.int16, _np.int32, _np.int64, _np.uint8, _np.uint16, _np.uint32, _np.uint64, _np.longdouble]
+    typed = dict(cases=0, types={})
+    import warnings as _w
+    for (stream, size, pol, ops, trace) in metas:
+        if stream not in ("valid", "big") or (stream == "big" and typed["cases"] % 7):
+            continue
+        cs = [b for (k, a, b) in ops if k == "upd"]
+        if not cs or any(b != int(b) or not (0 <= b <= 100) for b in cs if abs(b) != float("inf")) or any(abs(b) == float("inf") for b in cs):
+            continue
+        ct = CTYPES[typed["cases"] % len(CTYPES)]
+        typed["cases"] += 1; typed["types"][ct.__name__] = typed["types"].get(ct.__name__, 0) + 1
+        try:
+            with _w.catch_warnings():
+                _w.simplefilter("ignore")
+                tr2 = run_impl(size, pol, ops, ctype=ct)
+            msg = oracle(size, pol, ops, tr2)
+            if not msg and [(t[0], t[1], t[2], t[4], t[5]) for t in tr2] != [(t[0], t[1], t[2], t[4], t[5]) for t in trace]:
+                msg = "answers / internal arrays differ from the run with the same costs given as Python floats"
+        except Exception as ex:
+            msg = "raised %r" % (ex,)
+        if msg:
+            nviol += 1
+            if nviol <= 3:
+                rep.violation("heap history with costs passed as %s: %s" % (ct.__name__, msg), dict(size=size, policy=pol, cost_type=ct.__name__, ops=ops[:400]), key="heap:" + pol)
+    rep.corr["cost_types"] = typed
     rep.samples = [dict(size=m[1], policy=m[2], ops=m[3][:12]) for m in metas[:3]]
     rep.extra["oracle_violations"] = nviol
     rep.assumptions = ["costs are non-NaN floats (rank-encoded to Z by an order isomorphism)",
